@@ -123,7 +123,10 @@ def random_spec(rng, quick, trial_flip=False, odd_options=False):
             o["duration"] = hyd * rng.randint(1, 3) + rng.choice([1, hyd // 2, hyd - 1])
         else:
             o["report_timestep"] = 3 * hyd
-    return add_controls(rng, spec, trial_flip=trial_flip)
+    spec = add_controls(rng, spec, trial_flip=trial_flip)
+    if not trial_flip and not odd_options and o["duration"] >= 2 * hyd and rng.random() < 0.15:
+        spec["c16_restart"] = hyd * rng.randint(1, o["duration"] // hyd - 1)
+    return spec
 
 
 def build(wntr, spec):
@@ -214,6 +217,14 @@ def observe_run(spec, plan=None, backup=None, conv_err=False, max_calls=None, ke
 
     plan = {int(k): v for k, v in (plan or {}).items()}
     wn = build(wntr, spec)
+    if spec.get("c16_restart") is not None:
+        # a continued simulation: an unobserved first leg up to `c16_restart`, then the observed run to the full duration
+        full = wn.options.time.duration
+        wn.options.time.duration = spec["c16_restart"]
+        with warnings.catch_warnings(), _quiet_fds():
+            warnings.simplefilter("ignore")
+            wntr.sim.WNTRSimulator(wn).run_sim()
+        wn.options.time.duration = full
     sim = wntr.sim.WNTRSimulator(wn)
     obs = {"outs": [], "pres": [], "posts": [], "rows": [], "save_times": [], "kinds_hit": []}
     orig_helper = core._solver_helper
@@ -615,6 +626,8 @@ class C16(Check):
                     ctx.count("runs_with_partial_step")
                 if resolves:
                     ctx.count("runs_with_resolve")
+                if spec.get("c16_restart") is not None:
+                    ctx.count("continued_runs")
                 if isinstance(obs["report"], str):
                     ctx.count("report:ALL")
                 elif obs["report"] != obs["hyd"]:
